@@ -15,6 +15,7 @@ import html
 
 from . import lib
 from . import esc_lang as L
+from . import esc_lang2 as L2
 from .gen_templates import TGen
 
 RULE = ("K-lang: LGen programs of T (depth 3, 2-5 top statements; mixes neutral / non-neutral filters, text with "
@@ -145,6 +146,7 @@ def run(ctx):
         "generator keeps Markup-producing filters off all-constant operands",
     ]
     ctx.proof("C16")
+    ctx.proof("C16inc")
 
     # ---------------- K-esc: escape / unescape5
     strs = []
@@ -277,7 +279,45 @@ def run(ctx):
             ctx.reject({"kind": "T", "source": L.pr_body(t2), "prog": t2, "data": d, "lists": dl},
                        "probe with neutralised text: " + w, "C16:T-program")
     ctx.extra["probe_amp_text_outputs_differing_as_the_model_predicts"] = differs
+    run_sets(ctx, jinja2)
     # (ii) entity text in data is inside the hypotheses: counted in O-T / O-sets (METAS contain &amp; &lt; &#39;)
+
+
+def run_sets(ctx, jinja2):
+    """second round: template sets of Model/EscLang2.v (set block with filter, include, import, blocks / super())"""
+    # K-sets: extracted EscLang2.render vs the real engine, every template with its own selector setting
+    cases = []
+    for _ in range(ctx.size(500, 5000)):
+        st, d, dl, g = L2.gen_set(ctx.rng, neutral=ctx.rng.random() < 0.4, safe_ok=ctx.rng.random() < 0.2,
+                                  text=("safe", "meta", "amp"), ae_ops="01f")
+        cases.append((st, ctx.rng.random() < 0.5, d, dl, g.stats))
+    outs = ctx.driver("esc2", [L2.render_line(st, fl, d, dl) for st, fl, d, dl, _ in cases])
+    for (st, fl, d, dl, stats), o in zip(cases, outs):
+        m = L.parse_render(o)
+        real = L2.real_render(jinja2, st, fl, d, dl)
+        feats = sorted(k.split(":")[0] for k in stats if k.split(":")[0] in ("include", "import", "block", "super", "setblock_filter"))
+        nt = bool(m) and bool(feats)
+        srcs, main = L2.sources(st)
+        ctx.case(sample={"tie": "K-sets", "templates": srcs, "main": main, "flag": fl, "model": m} if nt and "super" in feats and len(ctx.samples) < 7 else None,
+                 key=("ksets", repr(sorted(srcs.items())), repr(d), repr(dl), fl) if nt else None)
+        ctx.count("k_sets")
+        for f in feats:
+            ctx.count("k_sets_with_" + f)
+        if m != real:
+            ctx.model_mismatch("K-sets EscLang2.render vs Template.render", {"kind": "set2", "templates": srcs, "main": main, "flag": fl,
+                                                                         "data": d, "lists": dl}, m, real, None)
+        else:
+            ctx.validated()
+    # O-sets2: the property on the real engine for sets inside the hypotheses of C16_escape_once_sets
+    for _ in range(ctx.size(500, 5000)):
+        st, d, dl, g = L2.gen_set(ctx.rng, neutral=True, safe_ok=False, text=("safe", "meta"), ae_ops="f")
+        on = L2.real_render(jinja2, dict(st, ae={t: True for t in st["ae"]}), True, d, dl)
+        off = L2.real_render(jinja2, dict(st, ae={t: False for t in st["ae"]}), False, d, dl)
+        srcs, main = L2.sources(st)
+        w = judge_pair(on, off, ctx, ("osets2", repr(sorted(srcs.items())), repr(d), repr(dl)),
+                       {"oracle": "O-sets2", "templates": srcs}, bool(g.stats), "o_sets2")
+        if w:
+            ctx.reject({"kind": "set2", "set": st, "data": d, "lists": dl}, w, "C16:template-set-2")
 
 
 def subst_text(t):
@@ -382,5 +422,18 @@ def replay(ctx, data):
         print("on :", repr(on), "\noff:", repr(off), "\noracle:", w)
         if w:
             ctx.reject(case, w, "C16:T-program")
+    elif case.get("kind") == "set2":
+        st = case["set"]
+        st = {"chain": [(t, b) for t, b in st["chain"]], "tt": {int(k): v for k, v in st["tt"].items()},
+              "ae": {int(k): v for k, v in st["ae"].items()}}
+        st = L2.retuple(st)
+        d = {int(k): v for k, v in case["data"].items()}
+        dl = {int(k): v for k, v in case["lists"].items()}
+        on = L2.real_render(jinja2, dict(st, ae={t: True for t in st["ae"]}), True, d, dl)
+        off = L2.real_render(jinja2, dict(st, ae={t: False for t in st["ae"]}), False, d, dl)
+        w = judge_pair(on, off, None, None, {}, True, "replay")
+        print("on :", repr(on), "\noff:", repr(off), "\noracle:", w)
+        if w:
+            ctx.reject(case, w, "C16:template-set-2")
     else:
         print("replay: unknown case kind", case)
